@@ -8,15 +8,26 @@
 (*           environment's moves only; requests take the lowest allowed blocks first, as the code    *)
 (*           does, so that later moves (which block arrives) stay meaningful on the real node.       *)
 EXTENDS HeaderSync, Json, SequencesExt
-CONSTANTS Deltas, MaxAdv, Low0, Depth, Trees
-VARIABLES adv, hist
-mcvars == <<vars, adv, hist>>
+CONSTANTS Deltas, MaxAdv, Low0, Depth, Trees,
+          GH      \* TRUE: getheaders answering is explored too (costly to evaluate: off in the larger configurations)
+VARIABLES adv, hist,
+          was     \* ghost, outside the VIEW: the blocks requested so far (only for the vacuity guard NoReRequest)
+mcvars == <<vars, adv, hist, was>>
 
+\* named universes (cfg: Trees <- ...)
+TreesMicro == {(2 :> 0 @@ 4 :> 2)}
+TreesTiny == {(2 :> 0 @@ 3 :> 0 @@ 4 :> 2)}
+TreesForks == {(2 :> 0 @@ 3 :> 0 @@ 4 :> 2 @@ 5 :> 3), (2 :> 0 @@ 3 :> 0 @@ 4 :> 2 @@ 5 :> 2)}
+TreesLine == {(2 :> 0 @@ 4 :> 2 @@ 6 :> 4 @@ 8 :> 6)}
+TreesTwoChains == {(2 :> 0 @@ 3 :> 0 @@ 4 :> 2 @@ 5 :> 3)}
+TreesForkTop == {(2 :> 0 @@ 3 :> 0 @@ 4 :> 2 @@ 5 :> 2)}
+TreesAll == {}
 ParentMaps == {f \in [Blocks -> Blocks \cup {0}] : \A b \in Blocks : Ht(f[b]) = Ht(b) - 1 /\ (Ht(b) = 1 => f[b] = 0)}
 MCInit == /\ par \in (IF Trees = {} THEN ParentMaps ELSE Trees)
-          /\ Init0 /\ low = Low0 /\ adv = 0 /\ hist = <<>>
-Rec(a, x, y) == IF Depth = 0 THEN UNCHANGED hist
-                ELSE Len(hist) < Depth /\ hist' = Append(hist, [a |-> a, x |-> x, y |-> y])
+          /\ Init0 /\ low = Low0 /\ adv = 0 /\ hist = <<>> /\ was = {}
+Rec(a, x, y) == /\ IF Depth = 0 THEN UNCHANGED hist
+                   ELSE Len(hist) < Depth /\ hist' = Append(hist, [a |-> a, x |-> x, y |-> y])
+                /\ was' = was \cup req'.R
 TopStored(b) == IF Anc(b) \cap stored = {} THEN 0 ELSE CHOOSE x \in Anc(b) \cap stored : Ht(x) = HS(b)
 RECURSIVE Lowest(_, _)
 Lowest(S, n) == IF n = 0 \/ S = {} THEN {} ELSE LET x == CHOOSE x \in S : \A y \in S : Ht(x) <= Ht(y) IN {x} \cup Lowest(S \ {x}, n - 1)
@@ -38,19 +49,34 @@ DoPrune == /\ st # <<>>
            /\ IF Depth = 0 THEN \E E \in SUBSET Tracked : PruneStep(E)
               ELSE PruneStep({})
            /\ UNCHANGED adv /\ Rec("Prune", 0, 0)
-MCNext == DoConnect \/ DoDisconnect \/ DoHeaders \/ DoFetch \/ DoArrive \/ DoRelay \/ DoAdvance \/ DoPrune
+\* locator of any known header chain, answered from the node's main chain; the answer must be a parent-linked
+\* continuation of a block the peer has
+DoGetHeaders == GH /\ \E b \in known : LET loc == LocatorOf(b) resp == Response(loc) IN
+                  /\ GetHeaders(loc, resp) /\ UNCHANGED adv /\ Rec("GetHeaders", b, 0)
+                  /\ Assert(/\ \A k \in 1..Len(resp) : par[resp[k]] = (IF k = 1 THEN Common(loc) ELSE resp[k - 1])
+                            /\ Common(loc) \in Anc(b) \cup {0}
+                            /\ (Len(resp) = 0 \/ resp[Len(resp)] = tip \/ Len(resp) = MaxHeaders)
+                            /\ (Len(resp) = 0 => Common(loc) = tip),
+                            <<"locator answer is not a continuation of the peer's chain", b, loc, resp>>)
+MCNext == DoGetHeaders \/ DoConnect \/ DoDisconnect \/ DoHeaders \/ DoFetch \/ DoArrive \/ DoRelay \/ DoAdvance \/ DoPrune
 Spec == MCInit /\ [][MCNext]_mcvars
 
 NeverTwiceMC == [][FreshStep]_mcvars
+RequestSafeMC == [][ReqSafeStep]_mcvars
+RequestLiveMC == [][ReqLiveStep]_mcvars
+LastCommonMC == [][LastCommonStep]_mcvars
 OnlyReleasedByMC == [][ReleaseStep]_mcvars
-\* behaviour depends on time differences only; `out` and `req` are outputs (their properties are step properties or
-\* are evaluated on the state in which they were produced: req is part of the view)
-AgeView == <<par, known, stored, recvd, tip, conn, best, lastc,
+\* behaviour depends on time differences only; `out` and `req` are outputs (their properties are step properties)
+AgeView == <<par, known, stored, recvd, tip, conn, best, lastc, slots,
              [b \in DOMAIN st |-> <<st[b].peer, now - st[b].ts>>], sched, [b \in DOMAIN trace |-> now - trace[b]],
-             restart, low, stale, req, adv>>
+             restart, low, stale, adv>>
 \* vacuity guards (must be VIOLATED): a request that leaves a missing block for later because of the window / the limit,
 \* a block re-requested from the other peer after a release
-SomeWindowCut == ~(req.p # 0 /\ req.elig /\ \E b \in Missing(req.p) : Ht(b) > HS(best[req.p]) + 1 + Window)
-SomeLimitCut == ~(req.p # 0 /\ req.elig /\ Can(req.p) = 0 /\ Missing(req.p) # {})
+NoWindowCutStep == ~(req'.p # 0 /\ req'.elig /\ \E b \in Missing(req'.p) \ req'.R : Ht(b) > HS(best[req'.p]) + 1 + Window)
+NoWindowCut == [][NoWindowCutStep]_mcvars
+NoLimitCutStep == ~(req'.p # 0 /\ req'.elig /\ req'.R # {} /\ Cardinality(req'.R) = Can(req'.p) /\ Missing(req'.p) \ req'.R # {})
+NoLimitCut == [][NoLimitCutStep]_mcvars
+NoReRequestStep == req'.R \cap was = {}
+NoReRequest == [][NoReRequestStep]_mcvars
 EmitBeh == (Len(hist) = Depth) => PrintT(<<"BEH", ToJson([par |-> [b \in Blocks |-> <<b, par[b]>>], steps |-> hist])>>)
 =============================================================================
